@@ -22,7 +22,7 @@ func init() {
 			"(R3) the kind switch covers the three module kinds, maps and block indexes share one parity guard and stores the complementary one, and a stage is closed exactly on a store layer or the last layer; " +
 			"(R4) a module with no input available at its initial block is an error; " +
 			"(R5) executeModules waits for all goroutines of a layer before applying any of their results, goroutines write only their own result slot, and stages/layers are iterated in slice order; " +
-			"(R6) only the ancestor closure of the output module (ModulesDownTo) is staged, with initial blocks taken from those same modules. Also (R6) nothing set while classifying one input in NewModuleGraph is read while classifying the next.",
+			"(R6) only the ancestor closure of the output module (ModulesDownTo) is staged, with initial blocks taken from those same modules. Also (R6) nothing set while classifying one input in NewModuleGraph is read while classifying the next. Also (R5) the error-discipline contradiction rules are silent on pipeline/exec and manifest.",
 		NotCovered:  "Termination of the layering loop (argued from acyclicity and validated references, see C17) and the invariant over all generated graphs; that ModulesDownTo computes the closure correctly (external graph library).",
 		Assumptions: []string{"module graph acyclic and references valid (NewModuleGraph / ValidateModules succeeded)"},
 	})
@@ -783,6 +783,9 @@ func runC14(p *core.Prog, r *core.Report) {
 	r.Guard("C14.R6", "closure/ModulesDownTo", "ancestor closure", func() { checkClosureFn(p, r, "C14.R6", "ModuleGraph.ModulesDownTo", 0, false) })
 	r.Guard("C14.R6", "graph-edges", "edges only for module inputs", func() { checkGraphEdgesOnlyForModuleInputs(p, r, "C14.R6") })
 	r.Guard("C14.R6", "closure/StoresDownTo", "ancestor closure", func() { checkClosureFn(p, r, "C14.R6", "ModuleGraph.StoresDownTo", 0, true) })
+	r.GuardExact("C14.R5", "error-discipline", "errors are tested where they are produced", func() {
+		checkErrorDiscipline(p, r, "C14.R5", []string{"pipeline/exec", "manifest"}, 50)
+	})
 	r.GuardExact("C14.R6", "graph-edges/per-input", "inputs classified one by one", func() {
 		checkNoCarriedState(p, r, "C14.R6", pkgMani, "NewModuleGraph", "each input of each module is classified (reads a module or not) from that input alone: no flag set for one input is read for the next")
 	})
